@@ -55,6 +55,7 @@ PROPERTY = "C01"
 LEVEL = "exploration"
 
 from odc.geo import crs as crsmod  # noqa: E402
+_PRISTINE = introspect.ModuleState(crsmod)  # taken at import, before any case has run
 from odc.geo import geobox as GBM  # noqa: E402
 from odc.geo import geom as GM  # noqa: E402
 from odc.geo.crs import CRS  # noqa: E402
@@ -363,7 +364,7 @@ OPERAND = {"Geometry": geom_operand, "BoundingBox": bb_operand, "GeoBox": gb_ope
 
 def reset():
     """Per shard: empty the library's CRS caches and every object built on top of them."""
-    introspect.clear_caches(crsmod)  # found by introspection, not by name
+    _PRISTINE.restore()  # module state of odc/geo/crs.py as it was when the harness started (found by introspection)
     _TAGV.clear()
     _OBJ.clear()
 
@@ -1606,7 +1607,7 @@ def run_fresh(case):
     built = {}
     for which in order:
         if which == "|":
-            introspect.clear_caches(crsmod)
+            _PRISTINE.restore()
             continue
         i = "ab".index(which)
         tag = (ta, tb)[i]
